@@ -183,7 +183,7 @@ namespace mtbb {
     Func parallel_for(Index first, Index last, Index step,
                       const Func& f) {
     if (!(first < last)) return f; /* empty range */
-    return parallel_for_aux(first, Index(0), (last - first + step - 1) / step, step, f);
+    return parallel_for_aux(first, Index(0), (last - first - 1) / step + 1, step, f);
   }
 
   template<typename Index, typename Func>
@@ -238,7 +238,7 @@ namespace mtbb {
     Func parallel_for(Index first, Index last, Index step, Index grainsize,
                       const Func& f) {
     if (!(first < last)) return f; /* empty range */
-    return parallel_for_grainsize_aux(first, 0, (last - first + step - 1) / step, step, grainsize, f);
+    return parallel_for_grainsize_aux(first, 0, (last - first - 1) / step + 1, step, grainsize, f);
   }
 
   /* index-based parallel for with grainsize: END */
